@@ -4,14 +4,14 @@
 //! step with a plain reference model. `Pie` is not `Clone`, so every transition `(state, op)` is executed by replaying
 //! the representative operation path of `state` on a fresh `Pie` and then applying `op`.
 //!
-//! * State = model state = for each resource type in {K1, K2, K3, RA, RB} what is stored in pie's typed state for
+//! * State = model state = for each resource type in {K1, K2, K3, RA, RB, T1, T2} what is stored in pie's typed state for
 //!   that resource type: nothing, `Shared(u8)`, `Other(bool)` or a map of some key type. The global map of key type
 //!   `K` IS the state of resource type `K` (`HashMap<K, K::Value>`), so e.g. `set::<Other>` on K1's state wipes K1's
 //!   map and the next map access of K1 replaces `Other` by an empty map (documented behaviour of
 //!   `get_or_set_default`); the model follows that faithfully. (This fixed array is the
 //!   `Map<ResourceType, Option<(StateType, value)>>` + "one plain map per key type" of the design.)
 //! * The implementation's state is fully observable without side effects (`get_boxed` + downcasts, `get::<S>` for all
-//!   five state types on all five resource types) and is compared with the model after the last operation of every
+//!   seven state types on all seven resource types) and is compared with the model after the last operation of every
 //!   executed path; where the model says a key type's state is a map, all keys are additionally read through
 //!   `Resource::read`, `MapWriter::get`, `GetGlobalMap`, stamped through the three stamping routes (`stamp` with the
 //!   resource state, `stamp_reader`, `stamp_writer`), and `MapEqualsChecker::check` is evaluated against every stamp
@@ -27,6 +27,17 @@
 //!   keys that get re-executed find a command not addressed to them and only read the tick). A task never reads and
 //!   writes its key in the same execution. No two task identities ever touch the same key, so no path of the alphabet
 //!   can trigger the overlap/hidden-dependency panics; any panic is reported as a violation.
+//! * T1 and T2 are two DISTINCT key (= resource) types with IDENTICAL `std::any::type_name`: a macro declares a
+//!   block-local `struct LocalKey(u8)` (+ `MapKey`) and is expanded twice in one function. They are unnameable, so the
+//!   whole executing side is generic over the pair (`Twins`) and reached through a function pointer instantiated where
+//!   both types are in scope. At start-up the harness asserts that their `TypeId`s differ and records whether their
+//!   names are equal (if a compiler ever names them differently this is recorded in the evidence; nothing fails).
+//!   Anything that identifies resource types by name instead of by type makes them share one slot, which shows as state
+//!   of one being visible through / replaced by accesses for the other.
+//! * Two searches are run, with different operation alphabets ("families"): `main` (K1, K2, K3 maps; typed state on
+//!   RA, RB, K1) and `twins` (the full map + typed-state alphabet on T1 and T2, with one key of K1 and `Shared` on RA as
+//!   bystanders). The explored space is the sum, not the product, of the two: interference between resource types is
+//!   pairwise and every pair of kinds occurs within one family. Every step of both observes all seven resource types.
 //! * The dependency store of pie is hidden state that the model state does not contain (which `KeyTask`s exist). To
 //!   cover it, besides the BFS to a fixed point over model states, ALL operation paths up to a small depth are executed
 //!   without any state merging.
@@ -56,23 +67,26 @@ use crate::common::{engine_error, Args, Report, Tier, Violation};
 
 /// Key types of the map resource.
 #[derive(Clone, Copy, PartialEq, Eq, Hash, PartialOrd, Ord, Debug)]
-pub enum KT { K1, K2, K3 }
+pub enum KT { K1, K2, K3, T1, T2 }
 
 /// Resource types whose typed state is modelled.
 #[derive(Clone, Copy, PartialEq, Eq, Hash, PartialOrd, Ord, Debug)]
-pub enum Res { K1, K2, K3, RA, RB }
+pub enum Res { K1, K2, K3, RA, RB, T1, T2 }
 
-pub const ALL_RES: [Res; 5] = [Res::K1, Res::K2, Res::K3, Res::RA, Res::RB];
-pub const ALL_KT: [KT; 3] = [KT::K1, KT::K2, KT::K3];
+pub const N_RES: usize = 7;
+pub const ALL_RES: [Res; N_RES] = [Res::K1, Res::K2, Res::K3, Res::RA, Res::RB, Res::T1, Res::T2];
+pub const ALL_KT: [KT; 5] = [KT::K1, KT::K2, KT::K3, KT::T1, KT::T2];
 
 impl KT {
-  pub fn res(self) -> Res { match self { KT::K1 => Res::K1, KT::K2 => Res::K2, KT::K3 => Res::K3 } }
-  fn name(self) -> &'static str { match self { KT::K1 => "K1", KT::K2 => "K2", KT::K3 => "K3" } }
+  pub fn res(self) -> Res { match self { KT::K1 => Res::K1, KT::K2 => Res::K2, KT::K3 => Res::K3, KT::T1 => Res::T1, KT::T2 => Res::T2 } }
+  fn name(self) -> &'static str { match self { KT::K1 => "K1", KT::K2 => "K2", KT::K3 => "K3", KT::T1 => "T1", KT::T2 => "T2" } }
+  /// Position of `HashMap<K, K::Value>` in the list of state types probed by `typed_gets`.
+  fn typed_pos(self) -> usize { match self { KT::K1 => 2, KT::K2 => 3, KT::K3 => 4, KT::T1 => 5, KT::T2 => 6 } }
 }
 
 impl Res {
   fn idx(self) -> usize { self as usize }
-  fn name(self) -> &'static str { match self { Res::K1 => "K1", Res::K2 => "K2", Res::K3 => "K3", Res::RA => "RA", Res::RB => "RB" } }
+  fn name(self) -> &'static str { match self { Res::K1 => "K1", Res::K2 => "K2", Res::K3 => "K3", Res::RA => "RA", Res::RB => "RB", Res::T1 => "T1", Res::T2 => "T2" } }
 }
 
 /// State types used by typed state accesses. `M1` = `HashMap<K1, u8>`, i.e. the type of K1's global map.
@@ -135,7 +149,7 @@ impl Slot {
 }
 
 #[derive(Clone, Copy, PartialEq, Eq, Hash, PartialOrd, Ord, Debug)]
-pub struct Model { pub slots: [Slot; 5] }
+pub struct Model { pub slots: [Slot; N_RES] }
 
 #[derive(Clone, Copy, PartialEq, Eq, Hash, PartialOrd, Ord, Debug)]
 pub enum MapOp { Insert(u8), Remove, OrInsert(u8) }
@@ -218,7 +232,7 @@ impl Op {
 
   pub fn parse(s: &str) -> Option<Op> {
     let p: Vec<&str> = s.split(':').collect();
-    let kt = |x: &str| match x { "K1" => Some(KT::K1), "K2" => Some(KT::K2), "K3" => Some(KT::K3), _ => None };
+    let kt = |x: &str| match x { "K1" => Some(KT::K1), "K2" => Some(KT::K2), "K3" => Some(KT::K3), "T1" => Some(KT::T1), "T2" => Some(KT::T2), _ => None };
     let bit = |x: &str| match x { "0" => Some(0u8), "1" => Some(1u8), _ => None };
     match p.as_slice() {
       ["map", k, key, r, m, o, v] => {
@@ -234,7 +248,7 @@ impl Op {
         Some(Op::Read { kt: kt(k)?, key: bit(key)?, route, bottom_up: *m == "bu" })
       }
       ["typed", r, s, o, v] => {
-        let res = match *r { "K1" => Res::K1, "K2" => Res::K2, "K3" => Res::K3, "RA" => Res::RA, "RB" => Res::RB, _ => return None };
+        let res = match *r { "K1" => Res::K1, "K2" => Res::K2, "K3" => Res::K3, "RA" => Res::RA, "RB" => Res::RB, "T1" => Res::T1, "T2" => Res::T2, _ => return None };
         let st = match *s { "Shared" => ST::Shared, "Other" => ST::Other, "M1" => ST::M1, _ => return None };
         let op = match *o {
           "get" => TypedOp::Get, "get_mut" => TypedOp::GetMut, "set" => TypedOp::Set(bit(v)?), "get_boxed" => TypedOp::GetBoxed,
@@ -249,7 +263,7 @@ impl Op {
 }
 
 impl Model {
-  pub fn initial() -> Model { Model { slots: [Slot::Absent; 5] } }
+  pub fn initial() -> Model { Model { slots: [Slot::Absent; N_RES] } }
 
   pub fn text(&self) -> String {
     ALL_RES.iter().map(|r| format!("{}={}", r.name(), self.slots[r.idx()].text())).collect::<Vec<_>>().join(" ")
@@ -375,6 +389,42 @@ pub fn alphabet(tier: Tier) -> Vec<Op> {
   ops
 }
 
+/// Operation alphabet of the family that exercises the twin key types T1/T2 (two distinct types with the same
+/// `type_name`): the full map and typed-state alphabet on both, plus one key of K1 and `Shared` on RA as bystanders.
+pub fn alphabet_twins(_tier: Tier) -> Vec<Op> {
+  let mut ops = Vec::new();
+  for kt in [KT::T1, KT::T2] {
+    for key in 0..2u8 {
+      for route in [WRoute::CtxWrite, WRoute::CreateWriter, WRoute::GlobalMap, WRoute::ResWrite] {
+        let in_task = matches!(route, WRoute::CtxWrite | WRoute::CreateWriter);
+        for &bottom_up in if in_task { &[false, true][..] } else { &[false][..] } {
+          for op in [MapOp::Insert(0), MapOp::Insert(1), MapOp::Remove, MapOp::OrInsert(0), MapOp::OrInsert(1)] {
+            ops.push(Op::Map { kt, key, route, bottom_up, op });
+          }
+        }
+      }
+      for route in [RRoute::CtxRead, RRoute::TaskWriterGet, RRoute::GlobalMap, RRoute::GlobalMapMut, RRoute::ResRead, RRoute::ResWrite, RRoute::Stamp, RRoute::Check] {
+        let in_task = matches!(route, RRoute::CtxRead | RRoute::TaskWriterGet);
+        for &bottom_up in if in_task { &[false, true][..] } else { &[false][..] } {
+          ops.push(Op::Read { kt, key, route, bottom_up });
+        }
+      }
+    }
+  }
+  let typed = [TypedOp::Get, TypedOp::GetMut, TypedOp::Set(0), TypedOp::Set(1), TypedOp::GetBoxed, TypedOp::GetBoxedMut,
+    TypedOp::SetBoxed(0), TypedOp::SetBoxed(1), TypedOp::Gosd, TypedOp::GosdMut];
+  for res in [Res::T1, Res::T2] {
+    for st in [ST::Shared, ST::Other] {
+      for op in typed { ops.push(Op::Typed { res, st, op }); }
+    }
+  }
+  ops.push(Op::Map { kt: KT::K1, key: 0, route: WRoute::GlobalMap, bottom_up: false, op: MapOp::Insert(1) });
+  ops.push(Op::Map { kt: KT::K1, key: 0, route: WRoute::CtxWrite, bottom_up: false, op: MapOp::Remove });
+  ops.push(Op::Read { kt: KT::K1, key: 0, route: RRoute::GlobalMap, bottom_up: false });
+  for op in [TypedOp::Set(1), TypedOp::Get, TypedOp::Gosd] { ops.push(Op::Typed { res: Res::RA, st: ST::Shared, op }); }
+  ops
+}
+
 // ---------------------------------------------------------------------------------------------------------------------
 // Implementation side: key types, resource types, state types
 // ---------------------------------------------------------------------------------------------------------------------
@@ -432,6 +482,8 @@ pub struct Stamps {
   k1: [Vec<Option<u8>>; 2],
   k2: [Vec<Option<u8>>; 2],
   k3: [Vec<Option<String>>; 2],
+  t1: [Vec<Option<u8>>; 2],
+  t2: [Vec<Option<u8>>; 2],
 }
 
 fn code<K: KeyT>(v: Option<&K::Value>) -> i16 { match v { None => -1, Some(v) => K::unval(v) } }
@@ -508,22 +560,24 @@ fn map_code<K: KeyT>(m: &HashMap<K, K::Value>) -> i16 {
 #[derive(Clone, PartialEq, Eq, Debug)]
 enum Desc { Slot(Slot), TickMap(Option<u32>, usize), Unknown }
 
-fn describe(any: &dyn Any) -> Desc {
+fn describe<W: Twins>(any: &dyn Any) -> Desc {
   if let Some(s) = any.downcast_ref::<Shared>() { return if s.0 <= 1 { Desc::Slot(Slot::Shared(s.0)) } else { Desc::Unknown }; }
   if let Some(s) = any.downcast_ref::<Other>() { return Desc::Slot(Slot::Other(s.0)); }
   if let Some(m) = any.downcast_ref::<HashMap<K1, u8>>() { return map_entries::<K1>(m).map_or(Desc::Unknown, |e| Desc::Slot(Slot::Map(KT::K1, e))); }
   if let Some(m) = any.downcast_ref::<HashMap<K2, u8>>() { return map_entries::<K2>(m).map_or(Desc::Unknown, |e| Desc::Slot(Slot::Map(KT::K2, e))); }
   if let Some(m) = any.downcast_ref::<HashMap<K3, String>>() { return map_entries::<K3>(m).map_or(Desc::Unknown, |e| Desc::Slot(Slot::Map(KT::K3, e))); }
+  if let Some(m) = any.downcast_ref::<HashMap<W::A, u8>>() { return map_entries::<W::A>(m).map_or(Desc::Unknown, |e| Desc::Slot(Slot::Map(KT::T1, e))); }
+  if let Some(m) = any.downcast_ref::<HashMap<W::B, u8>>() { return map_entries::<W::B>(m).map_or(Desc::Unknown, |e| Desc::Slot(Slot::Map(KT::T2, e))); }
   if let Some(m) = any.downcast_ref::<HashMap<Tick, u32>>() { return Desc::TickMap(m.get(&Tick).copied(), m.len()); }
   Desc::Unknown
 }
 
-fn describe_res<R: Resource>(pie: &Pie<Rec>) -> Desc {
-  match pie.resource_state::<R>().get_boxed() { None => Desc::Slot(Slot::Absent), Some(b) => describe(&**b) }
+fn describe_res<W: Twins, R: Resource>(pie: &Pie<Rec>) -> Desc {
+  match pie.resource_state::<R>().get_boxed() { None => Desc::Slot(Slot::Absent), Some(b) => describe::<W>(&**b) }
 }
 
-/// `get::<S>` for all five state types on resource type `R`: [Shared, Other, Map<K1>, Map<K2>, Map<K3>].
-fn typed_gets<R: Resource>(pie: &Pie<Rec>) -> [i16; 5] {
+/// `get::<S>` for all seven state types on resource type `R`: [Shared, Other, Map<K1>, Map<K2>, Map<K3>, Map<T1>, Map<T2>].
+fn typed_gets<W: Twins, R: Resource>(pie: &Pie<Rec>) -> [i16; 7] {
   let s = pie.resource_state::<R>();
   [
     s.get::<Shared>().map_or(-1, |x| x.code()),
@@ -531,18 +585,85 @@ fn typed_gets<R: Resource>(pie: &Pie<Rec>) -> [i16; 5] {
     s.get::<HashMap<K1, u8>>().map_or(-1, map_code::<K1>),
     s.get::<HashMap<K2, u8>>().map_or(-1, map_code::<K2>),
     s.get::<HashMap<K3, String>>().map_or(-1, map_code::<K3>),
+    s.get::<HashMap<W::A, u8>>().map_or(-1, map_code::<W::A>),
+    s.get::<HashMap<W::B, u8>>().map_or(-1, map_code::<W::B>),
   ]
 }
 
-fn expected_typed_gets(slot: Slot) -> [i16; 5] {
-  let mut e = [-1i16; 5];
+fn expected_typed_gets(slot: Slot) -> [i16; 7] {
+  let mut e = [-1i16; 7];
   match slot {
     Slot::Absent => {}
     Slot::Shared(_) => e[0] = slot.code(),
     Slot::Other(_) => e[1] = slot.code(),
-    Slot::Map(kt, _) => e[2 + kt as usize] = slot.code(),
+    Slot::Map(kt, _) => e[kt.typed_pos()] = slot.code(),
   }
   e
+}
+
+// ---------------------------------------------------------------------------------------------------------------------
+// Twin key types: two DISTINCT types with IDENTICAL `std::any::type_name`
+// ---------------------------------------------------------------------------------------------------------------------
+
+/// The pair of twin key types (unnameable: they are local to sibling blocks of `twin_info`), threaded through the
+/// executing side as one type parameter.
+pub trait Twins: 'static {
+  type A: KeyT<Value = u8>;
+  type B: KeyT<Value = u8>;
+}
+
+struct Pair<A, B>(std::marker::PhantomData<(A, B)>);
+
+impl<A: KeyT<Value = u8>, B: KeyT<Value = u8>> Twins for Pair<A, B> {
+  type A = A;
+  type B = B;
+}
+
+/// Declares a key type local to the enclosing block (with `MapKey` and `KeyT` impls) and evaluates to a value of it.
+/// Expanded twice in one function this yields two different types with the same path, hence the same `type_name`.
+macro_rules! local_key_type {
+  ($kt:expr, $stamps:ident) => {{
+    #[derive(Copy, Clone, PartialEq, Eq, Hash, PartialOrd, Ord, Debug)]
+    struct LocalKey(u8);
+    impl MapKey for LocalKey { type Value = u8; }
+    impl KeyT for LocalKey {
+      const KT: KT = $kt;
+      fn mk(key: u8) -> Self { LocalKey(key) }
+      fn val(v: u8) -> u8 { v }
+      fn unval(v: &u8) -> i16 { if *v <= 1 { *v as i16 } else { 999 } }
+      fn stamps(s: &mut Stamps) -> &mut [Vec<Option<u8>>; 2] { &mut s.$stamps }
+    }
+    LocalKey(0)
+  }};
+}
+
+pub struct TwinInfo {
+  run_path: fn(&[Op], bool) -> PathOut,
+  pub type_ids_differ: bool,
+  pub type_name_a: &'static str,
+  pub type_name_b: &'static str,
+}
+
+impl TwinInfo {
+  pub fn same_name(&self) -> bool { self.type_name_a == self.type_name_b }
+}
+
+fn build_twin_info<A: KeyT<Value = u8>, B: KeyT<Value = u8>>(_a: A, _b: B) -> TwinInfo {
+  TwinInfo {
+    run_path: run_path_w::<Pair<A, B>>,
+    type_ids_differ: std::any::TypeId::of::<A>() != std::any::TypeId::of::<B>(),
+    type_name_a: std::any::type_name::<A>(),
+    type_name_b: std::any::type_name::<B>(),
+  }
+}
+
+pub fn twin_info() -> &'static TwinInfo {
+  static INFO: std::sync::OnceLock<TwinInfo> = std::sync::OnceLock::new();
+  INFO.get_or_init(|| {
+    let a = local_key_type!(KT::T1, t1);
+    let b = local_key_type!(KT::T2, t2);
+    build_twin_info(a, b)
+  })
 }
 
 // ---------------------------------------------------------------------------------------------------------------------
@@ -777,23 +898,30 @@ fn exec_typed<R: Resource, S: StT>(pie: &mut Pie<Rec>, op: TypedOp) -> Obs {
   }
 }
 
-fn exec_op(pie: &mut Pie<Rec>, op: Op) -> Obs {
+fn exec_op<W: Twins>(pie: &mut Pie<Rec>, op: Op) -> Obs {
   match op {
     Op::Map { kt, key, route, bottom_up, op } => match kt {
       KT::K1 => exec_map::<K1>(pie, key, route, bottom_up, op),
       KT::K2 => exec_map::<K2>(pie, key, route, bottom_up, op),
       KT::K3 => exec_map::<K3>(pie, key, route, bottom_up, op),
+      KT::T1 => exec_map::<W::A>(pie, key, route, bottom_up, op),
+      KT::T2 => exec_map::<W::B>(pie, key, route, bottom_up, op),
     },
     Op::Read { kt, key, route, bottom_up } => match kt {
       KT::K1 => exec_read::<K1>(pie, key, route, bottom_up),
       KT::K2 => exec_read::<K2>(pie, key, route, bottom_up),
       KT::K3 => exec_read::<K3>(pie, key, route, bottom_up),
+      KT::T1 => exec_read::<W::A>(pie, key, route, bottom_up),
+      KT::T2 => exec_read::<W::B>(pie, key, route, bottom_up),
     },
     Op::Typed { res, st, op } => {
       macro_rules! by_st {
         ($r:ty) => { match st { ST::Shared => exec_typed::<$r, Shared>(pie, op), ST::Other => exec_typed::<$r, Other>(pie, op), ST::M1 => exec_typed::<$r, HashMap<K1, u8>>(pie, op) } };
       }
-      match res { Res::K1 => by_st!(K1), Res::K2 => by_st!(K2), Res::K3 => by_st!(K3), Res::RA => by_st!(RA), Res::RB => by_st!(RB) }
+      match res {
+        Res::K1 => by_st!(K1), Res::K2 => by_st!(K2), Res::K3 => by_st!(K3), Res::RA => by_st!(RA), Res::RB => by_st!(RB),
+        Res::T1 => by_st!(W::A), Res::T2 => by_st!(W::B),
+      }
     }
   }
 }
@@ -831,7 +959,10 @@ fn obs_json(o: &Obs) -> Value { Value::Object(o.iter().map(|(k, v)| (k.to_string
 
 macro_rules! with_kt {
   ($kt:expr, $f:ident, $($arg:expr),*) => {
-    match $kt { KT::K1 => $f::<K1>($($arg),*), KT::K2 => $f::<K2>($($arg),*), KT::K3 => $f::<K3>($($arg),*) }
+    match $kt {
+      KT::K1 => $f::<K1>($($arg),*), KT::K2 => $f::<K2>($($arg),*), KT::K3 => $f::<K3>($($arg),*),
+      KT::T1 => $f::<W::A>($($arg),*), KT::T2 => $f::<W::B>($($arg),*),
+    }
   };
 }
 
@@ -874,34 +1005,34 @@ fn observe_map<K: KeyT>(pie: &mut Pie<Rec>, m: [Option<u8>; 2], stamps: &mut Sta
       (v, ResourceChecker::<K>::stamp_writer(&MapEqualsChecker, &k, w).unwrap())
     };
     let global_value = code::<K>(GetGlobalMap::<K>::get_global_map(pie.resource_state_mut::<K>()).get(&k));
-    j.eq("C14/read-your-writes", &|| format!("{:?} read through Resource::read", k), read_value, want);
-    j.eq("C14/read-your-writes", &|| format!("{:?} read through MapWriter::get", k), writer_value, want);
-    j.eq("C14/read-your-writes", &|| format!("{:?} read through GetGlobalMap", k), global_value, want);
-    j.eq("C14/stamp-routes", &|| format!("{:?} stamp(state)", k), code::<K>(s_state.as_ref()), want);
-    j.eq("C14/stamp-routes", &|| format!("{:?} stamp_reader", k), code::<K>(s_reader.as_ref()), want);
-    j.eq("C14/stamp-routes", &|| format!("{:?} stamp_writer", k), code::<K>(s_writer.as_ref()), want);
-    j.eq("C14/stamp-routes", &|| format!("{:?} stamp(state) vs stamp_reader", k), &s_state, &s_reader);
-    j.eq("C14/stamp-routes", &|| format!("{:?} stamp(state) vs stamp_writer", k), &s_state, &s_writer);
+    j.eq("C14/read-your-writes", &|| format!("{}:{:?} read through Resource::read", K::KT.name(), k), read_value, want);
+    j.eq("C14/read-your-writes", &|| format!("{}:{:?} read through MapWriter::get", K::KT.name(), k), writer_value, want);
+    j.eq("C14/read-your-writes", &|| format!("{}:{:?} read through GetGlobalMap", K::KT.name(), k), global_value, want);
+    j.eq("C14/stamp-routes", &|| format!("{}:{:?} stamp(state)", K::KT.name(), k), code::<K>(s_state.as_ref()), want);
+    j.eq("C14/stamp-routes", &|| format!("{}:{:?} stamp_reader", K::KT.name(), k), code::<K>(s_reader.as_ref()), want);
+    j.eq("C14/stamp-routes", &|| format!("{}:{:?} stamp_writer", K::KT.name(), k), code::<K>(s_writer.as_ref()), want);
+    j.eq("C14/stamp-routes", &|| format!("{}:{:?} stamp(state) vs stamp_reader", K::KT.name(), k), &s_state, &s_reader);
+    j.eq("C14/stamp-routes", &|| format!("{}:{:?} stamp(state) vs stamp_writer", K::KT.name(), k), &s_state, &s_writer);
     // Check against every stamp value of the alphabet and every real stamp recorded earlier on this path.
     let mut candidates: Vec<Option<K::Value>> = vec![None, Some(K::val(0)), Some(K::val(1))];
     candidates.extend(K::stamps(stamps)[key as usize].iter().cloned());
     for s in &candidates {
       let consistent = ResourceChecker::<K>::check(&MapEqualsChecker, &k, pie.resource_state_mut::<K>(), s).unwrap().is_none();
-      j.eq("C14/check", &|| format!("{:?} check against stamp {:?} consistent?", k, s), consistent, code::<K>(s.as_ref()) == want);
+      j.eq("C14/check", &|| format!("{}:{:?} check against stamp {:?} consistent?", K::KT.name(), k, s), consistent, code::<K>(s.as_ref()) == want);
     }
     for s in [s_state, s_reader, s_writer] { push_distinct(&mut K::stamps(stamps)[key as usize], s); }
   }
 }
 
 /// Side-effect free comparison of the whole typed state with the model.
-fn observe_snapshot(pie: &Pie<Rec>, model: &Model, tick: u32, typed: bool, j: &mut Judge) {
+fn observe_snapshot<W: Twins>(pie: &Pie<Rec>, model: &Model, tick: u32, typed: bool, j: &mut Judge) {
   macro_rules! one {
     ($r:ty, $res:expr) => {{
       let slot = model.slots[$res.idx()];
-      j.eq("C14/state-isolation", &|| format!("boxed state of resource type {}", $res.name()), describe_res::<$r>(pie), Desc::Slot(slot));
+      j.eq("C14/state-isolation", &|| format!("boxed state of resource type {}", $res.name()), describe_res::<W, $r>(pie), Desc::Slot(slot));
       if typed {
-        j.eq("C14/state-isolation", &|| format!("get::<S>() for S in [Shared, Other, Map<K1>, Map<K2>, Map<K3>] on resource type {}", $res.name()),
-          typed_gets::<$r>(pie), expected_typed_gets(slot));
+        j.eq("C14/state-isolation", &|| format!("get::<S>() for S in [Shared, Other, Map<K1>, Map<K2>, Map<K3>, Map<T1>, Map<T2>] on resource type {}", $res.name()),
+          typed_gets::<W, $r>(pie), expected_typed_gets(slot));
       }
     }};
   }
@@ -910,12 +1041,16 @@ fn observe_snapshot(pie: &Pie<Rec>, model: &Model, tick: u32, typed: bool, j: &m
   one!(K3, Res::K3);
   one!(RA, Res::RA);
   one!(RB, Res::RB);
-  j.eq("C14/state-isolation", &|| "boxed state of the harness resource type Tick".to_string(), describe_res::<Tick>(pie), Desc::TickMap(Some(tick), 1));
+  one!(W::A, Res::T1);
+  one!(W::B, Res::T2);
+  j.eq("C14/state-isolation", &|| "boxed state of the harness resource type Tick".to_string(), describe_res::<W, Tick>(pie), Desc::TickMap(Some(tick), 1));
 }
 
 /// Executes `ops` on a fresh `Pie`, comparing every operation's observations with the model, and the complete
 /// observable state after the last operation.
-pub fn run_path(ops: &[Op], trace: bool) -> PathOut {
+pub fn run_path(ops: &[Op], trace: bool) -> PathOut { (twin_info().run_path)(ops, trace) }
+
+fn run_path_w<W: Twins>(ops: &[Op], trace: bool) -> PathOut {
   let mut out = PathOut::default();
   let mut pie = Pie::with_tracker(Rec::default());
   let mut model = Model::initial();
@@ -927,7 +1062,7 @@ pub fn run_path(ops: &[Op], trace: bool) -> PathOut {
     let expected = model.apply(op, tick);
     let observed = catch_unwind(AssertUnwindSafe(|| {
       GetGlobalMap::<Tick>::get_global_map_mut(pie.resource_state_mut::<Tick>()).insert(Tick, tick);
-      exec_op(&mut pie, op)
+      exec_op::<W>(&mut pie, op)
     }));
     out.steps += 1;
     let observed = match observed {
@@ -954,12 +1089,12 @@ pub fn run_path(ops: &[Op], trace: bool) -> PathOut {
       let mut evals = 0u64;
       if last {
         let mut j = Judge { failures: &mut failures, evals: &mut evals, step: i };
-        observe_snapshot(&pie, &model, tick, true, &mut j);
+        observe_snapshot::<W>(&pie, &model, tick, true, &mut j);
         for kt in ALL_KT {
           if let Some(m) = model.map_of(kt) { with_kt!(kt, observe_map, &mut pie, m, &mut stamps, &mut j); }
         }
         // The observations above must not have changed anything.
-        observe_snapshot(&pie, &model, tick, false, &mut j);
+        observe_snapshot::<W>(&pie, &model, tick, false, &mut j);
       } else {
         for kt in ALL_KT {
           if model.map_of(kt).is_some() { with_kt!(kt, record_stamps, &mut pie, &mut stamps); }
@@ -1192,6 +1327,7 @@ fn sample_scripts() -> Vec<Vec<&'static str>> {
     vec!["map:K1:0:ctx_write:td:insert:1", "map:K2:0:global_map:-:insert:0", "read:K1:0:ctx_read:td", "read:K2:0:res_read:-", "map:K1:0:create_writer:td:remove:-", "read:K1:0:stamp:-"],
     vec!["map:K1:1:global_map:-:or_insert:1", "typed:K1:Other:set:1", "typed:K1:Shared:get:-", "read:K1:1:global_map:-", "typed:K1:Other:get:-"],
     vec!["typed:RA:Shared:set:1", "typed:RB:Shared:get:-", "typed:RB:Other:get_or_set_default_mut:-", "typed:RA:Other:get:-", "typed:RA:Shared:get_mut:-", "typed:RB:Shared:get_or_set_default:-"],
+    vec!["map:T1:0:ctx_write:td:insert:1", "read:T2:0:ctx_read:td", "map:T2:0:global_map:-:insert:0", "read:T1:0:res_read:-", "typed:T1:Shared:set:1", "typed:T2:Shared:get:-", "typed:T2:Shared:get_or_set_default:-", "read:T1:0:global_map:-"],
     vec!["map:K2:1:res_write:-:insert:1", "map:K1:1:create_writer:td:or_insert:0", "read:K2:1:task_writer_get:td", "map:K2:1:ctx_write:td:remove:-", "read:K2:1:check:-"],
   ]
 }
@@ -1229,15 +1365,27 @@ pub fn run(args: &Args) -> i32 {
     return run_replay(args, path);
   }
   let mut rep = Report::new(args);
-  let ops = alphabet(args.tier);
-  for (i, op) in ops.iter().enumerate() {
-    if Op::parse(&op.text()) != Some(*op) { engine_error(&format!("C14: operation {} ({}) does not round-trip through its text form", i, op.text())); }
-  }
+  let twins = twin_info();
+  if !twins.type_ids_differ { engine_error("C14: the two twin key types have the same TypeId (they must be distinct types)"); }
   let (budget_s, enum_depth) = match args.tier { Tier::Quick => (14.0, 2), Tier::Thorough => (540.0, 3) };
   let enum_depth = std::env::var("VERIF_C14_ENUM_DEPTH").ok().and_then(|s| s.parse().ok()).unwrap_or(enum_depth);
-  let out = with_quiet_panics(|| search(args.tier, &ops, budget_s, enum_depth));
+  // Two searches with different alphabets (the state space is their sum, not their product): isolation failures are
+  // pairwise between resource types, and every pair of kinds of resource types occurs in one of the two.
+  let start = Instant::now();
+  let families: Vec<(&'static str, &'static str, Vec<Op>)> = vec![
+    ("twins", "T1, T2 = two distinct key types with identical std::any::type_name (full map and typed-state alphabet), plus one key of K1 and Shared on RA", alphabet_twins(args.tier)),
+    ("main", "K1, K2 (+K3 thorough) maps; typed state on RA, RB, K1", alphabet(args.tier)),
+  ];
+  let mut outs: Vec<SearchOut> = Vec::new();
+  for (name, _, ops) in &families {
+    for (i, op) in ops.iter().enumerate() {
+      if Op::parse(&op.text()) != Some(*op) { engine_error(&format!("C14: operation {} ({}) of family {} does not round-trip through its text form", i, op.text(), name)); }
+    }
+    let remaining = (budget_s - start.elapsed().as_secs_f64()).max(0.5);
+    outs.push(with_quiet_panics(|| search(args.tier, ops, remaining, enum_depth)));
+  }
 
-  // Samples: scripted paths plus the representative path of the last state discovered.
+  // Samples: scripted paths plus the representative path of the last state discovered in each family.
   let mut samples = Vec::new();
   with_quiet_panics(|| {
     for script in sample_scripts() {
@@ -1245,48 +1393,62 @@ pub fn run(args: &Args) -> i32 {
       let o = run_path(&path, true);
       samples.push(json!({"kind": "scripted", "steps": o.trace, "failures": o.failures.iter().map(|f| f.what.clone()).collect::<Vec<_>>()}));
     }
-    if !out.deepest_path.is_empty() {
-      let o = run_path(&out.deepest_path, true);
-      samples.push(json!({"kind": "representative path of the last state discovered by the BFS", "steps": o.trace}));
+    for ((name, _, _), out) in families.iter().zip(&outs) {
+      if !out.deepest_path.is_empty() {
+        let o = run_path(&out.deepest_path, true);
+        samples.push(json!({"kind": format!("representative path of the last state discovered by the BFS of family '{}'", name), "steps": o.trace}));
+      }
     }
   });
 
-  let exhaustive = out.fixed_point && out.enum_complete;
-  rep.set("states", json!(out.states));
-  rep.set("transitions", json!(out.transitions));
-  rep.set("paths_without_merging", json!(out.enum_paths));
-  rep.set("traces_validated_against_impl", json!(out.totals.steps));
-  rep.set("full_observation_steps", json!(out.transitions + out.enum_paths));
-  rep.set("evaluations", json!(out.totals.evals));
-  rep.set("distinct_nontrivial", json!(out.nontrivial));
-  rep.set("distinct_nontrivial_rule", json!("distinct (model state, operation) pairs whose operation changes the model state (everything else is a self loop: a read, or a write of what is already there)"));
-  rep.set("distinct_outcomes", json!(out.totals.outcomes.len()));
-  rep.set("distinct_outcomes_rule", json!("distinct (operation, complete observation vector) pairs seen on paths without failure"));
+  let sum = |f: &dyn Fn(&SearchOut) -> u64| outs.iter().map(|o| f(o)).sum::<u64>();
+  let fixed_point = outs.iter().all(|o| o.fixed_point);
+  let enum_complete = outs.iter().all(|o| o.enum_complete);
+  rep.set("states", json!(sum(&|o| o.states as u64)));
+  rep.set("transitions", json!(sum(&|o| o.transitions)));
+  rep.set("paths_without_merging", json!(sum(&|o| o.enum_paths)));
+  rep.set("traces_validated_against_impl", json!(sum(&|o| o.totals.steps)));
+  rep.set("full_observation_steps", json!(sum(&|o| o.transitions + o.enum_paths)));
+  rep.set("evaluations", json!(sum(&|o| o.totals.evals)));
+  rep.set("distinct_nontrivial", json!(sum(&|o| o.nontrivial)));
+  rep.set("distinct_nontrivial_rule", json!("distinct (model state, operation) pairs whose operation changes the model state (everything else is a self loop: a read, or a write of what is already there), summed over the two searches"));
+  rep.set("distinct_outcomes", json!(sum(&|o| o.totals.outcomes.len() as u64)));
+  rep.set("distinct_outcomes_rule", json!("distinct (operation, complete observation vector) pairs seen on paths without failure, summed over the two searches"));
   rep.set("samples", Value::Array(samples));
-  rep.set("exhaustive", json!(exhaustive));
+  rep.set("exhaustive", json!(fixed_point && enum_complete));
   rep.set("rule", json!(format!(
-    "BFS over model states (typed state of K1,K2,K3,RA,RB incl. the global maps) {}; every (state, op) executed on a fresh Pie by replaying the state's representative path; plus all op paths of length <= {} without state merging ({})",
-    if out.fixed_point { "to a fixed point" } else { "stopped by the wall-time budget before the fixed point" }, out.enum_depth,
-    if out.enum_complete { "complete" } else { "stopped by the wall-time budget" })));
+    "two searches (families 'twins' and 'main', see bounds), each: BFS over model states (what pie's typed state holds for each of the resource types K1,K2,K3,RA,RB,T1,T2, global maps included) {}; every (state, op) executed on a fresh Pie by replaying the state's representative path; plus all op paths of length <= {} without state merging ({})",
+    if fixed_point { "to a fixed point" } else { "stopped by the wall-time budget before the fixed point" }, enum_depth,
+    if enum_complete { "complete" } else { "stopped by the wall-time budget" })));
+  rep.set("twin_key_types", json!({
+    "type_ids_differ": twins.type_ids_differ, "type_names_equal": twins.same_name(),
+    "type_name_a": twins.type_name_a, "type_name_b": twins.type_name_b,
+    "note": if twins.same_name() { "two distinct resource/key types with identical std::any::type_name are part of the alphabet (family 'twins')" }
+            else { "the compiler gave the two block-local key types different type names: the same-name part of the alphabet is NOT exercised by this build (the family still runs, as two ordinary distinct key types)" },
+  }));
   rep.set("bounds", json!({
-    "operations": ops.len(),
-    "key_types": if args.tier == Tier::Thorough { json!(["K1(u8)->u8", "K2(u8)->u8", "K3(bool)->String"]) } else { json!(["K1(u8)->u8", "K2(u8)->u8"]) },
+    "families": families.iter().zip(&outs).map(|((name, what, ops), o)| json!({
+      "family": name, "alphabet": what, "operations": ops.len(), "states": o.states, "transitions": o.transitions,
+      "bfs_fixed_point": o.fixed_point, "bfs_depth": o.max_depth, "bfs_states_per_level": o.levels,
+      "unmerged_path_depth": o.enum_depth, "unmerged_paths": o.enum_paths, "unmerged_paths_complete": o.enum_complete,
+    })).collect::<Vec<_>>(),
+    "key_types": if args.tier == Tier::Thorough { json!(["K1(u8)->u8", "K2(u8)->u8", "K3(bool)->String", "T1(u8)->u8", "T2(u8)->u8"]) } else { json!(["K1(u8)->u8", "K2(u8)->u8", "T1(u8)->u8", "T2(u8)->u8"]) },
     "keys_per_type": 2, "values_per_type": 2,
     "write_routes": ["Context::write", "Context::create_writer+written_to", "resource_state_mut().get_global_map_mut()", "Resource::write(state) MapWriter outside a task"],
     "map_ops": ["insert", "remove via entry()", "entry().or_insert"],
     "read_routes": ["Context::read", "MapWriter::get/get_mut in task", "get_global_map", "get_global_map_mut", "Resource::read", "Resource::write+get", "MapEqualsChecker::stamp", "MapEqualsChecker::check"],
     "session_modes_for_in_task_routes": ["top-down", "bottom-up"],
-    "typed_state": {"resource_types": ["RA", "RB", "K1"], "state_types": if args.tier == Tier::Thorough { json!(["Shared(u8)", "Other(bool)", "HashMap<K1,u8> (on RA and K1)"]) } else { json!(["Shared(u8)", "Other(bool)"]) },
+    "typed_state": {"resource_types": ["RA", "RB", "K1", "T1", "T2"], "state_types": if args.tier == Tier::Thorough { json!(["Shared(u8)", "Other(bool)", "HashMap<K1,u8> (on RA and K1)"]) } else { json!(["Shared(u8)", "Other(bool)"]) },
       "ops": ["get", "get_mut", "set", "get_boxed", "get_boxed_mut", "set_boxed", "get_or_set_default", "get_or_set_default_mut"]},
-    "bfs_fixed_point": out.fixed_point, "bfs_depth": out.max_depth, "bfs_states_per_level": out.levels,
-    "unmerged_path_depth": out.enum_depth, "unmerged_paths_complete": out.enum_complete,
+    "observed_every_step": "boxed state + get::<S> for 7 state types on all 7 resource types (K1,K2,K3,RA,RB,T1,T2) and the harness type Tick",
     "wall_budget_s": budget_s, "threads": n_threads(),
   }));
   rep.assume("One task identity per (key type, key) performs all in-task accesses of that key, so pie's overlapping-write / hidden-dependency detection (not part of C14) is never triggered.");
   rep.assume("Model state excludes pie's dependency store; the BFS uses one representative path per model state, complemented by all unmerged paths up to the stated depth.");
+  rep.assume("The product of the two operation families is not explored: interference between resource types is pairwise, and every pair of kinds (map key/map key incl. same-named, map key/plain resource, plain/plain) occurs within one family.");
 
   let mut engine_failures = Vec::new();
-  for f in &out.found {
+  for f in outs.iter().flat_map(|o| o.found.iter()) {
     if f.failure.engine { engine_failures.push(f); } else { rep.violation(violation_of(&f.ops, &f.failure)); }
   }
   if rep.violation_count() == 0 {
@@ -1378,13 +1540,39 @@ mod tests {
       for op in ops { assert_eq!(Op::parse(&op.text()), Some(op)); }
     }
     assert!(alphabet(Tier::Quick).len() < alphabet(Tier::Thorough).len());
+    let ops = alphabet_twins(Tier::Quick);
+    let set: BTreeSet<Op> = ops.iter().copied().collect();
+    assert_eq!(set.len(), ops.len());
+    for op in ops { assert_eq!(Op::parse(&op.text()), Some(op)); }
   }
 
   #[test]
   fn expected_typed_gets_positions() {
-    assert_eq!(expected_typed_gets(Slot::Absent), [-1; 5]);
-    assert_eq!(expected_typed_gets(Slot::Shared(1)), [1, -1, -1, -1, -1]);
-    assert_eq!(expected_typed_gets(Slot::Map(KT::K2, [Some(0), None])), [-1, -1, -1, 103, -1]);
+    assert_eq!(expected_typed_gets(Slot::Absent), [-1; 7]);
+    assert_eq!(expected_typed_gets(Slot::Shared(1)), [1, -1, -1, -1, -1, -1, -1]);
+    assert_eq!(expected_typed_gets(Slot::Map(KT::K2, [Some(0), None])), [-1, -1, -1, 103, -1, -1, -1]);
+    assert_eq!(expected_typed_gets(Slot::Map(KT::T2, [None, Some(1)])), [-1, -1, -1, -1, -1, -1, 102]);
+  }
+
+  #[test]
+  fn twin_key_types_are_distinct_types() {
+    let t = twin_info();
+    assert!(t.type_ids_differ);
+    // Identical type names are expected but not guaranteed by the language: only reported, never required.
+    println!("twin type names: {} / {} (equal: {})", t.type_name_a, t.type_name_b, t.same_name());
+  }
+
+  #[test]
+  fn model_twins_do_not_alias() {
+    let mut m = Model::initial();
+    m.apply(ins(KT::T1, 0, 1), 1);
+    assert_eq!(m.apply(read(KT::T2, 0), 2), vec![("read", -1)]);
+    assert_eq!(m.map_of(KT::T1), Some([Some(1), None]));
+    assert_eq!(m.map_of(KT::T2), Some([None, None]));
+    m.apply(Op::Typed { res: Res::T1, st: ST::Shared, op: TypedOp::Set(1) }, 3);
+    assert_eq!(m.apply(Op::Typed { res: Res::T2, st: ST::Shared, op: TypedOp::Get }, 4), vec![("get", -1)]);
+    assert_eq!(m.map_of(KT::T1), None);
+    assert_eq!(m.map_of(KT::T2), Some([None, None]));
   }
 
   #[test]
